@@ -153,3 +153,24 @@ Proof.
   assert (E : kget (enc f2_key) (snd (model_event true (2, mkSEv 1 2 false [] [(true, 300000)]))) = Some 300000) by (vm_compute; reflexivity).
   specialize (G E). vm_compute in G. apply G. reflexivity.
 Qed.
+
+(* ---- the second condition of pair_fits (the storage holds no number the log does not have) is needed:
+   a stored number whose event never reached the log - numbers flushed before the append, outside the
+   client protocol - is returned again, because Next prefers the log-derived toBeFlushed value ---- *)
+Definition ahead_log : list event := [(5, [(0, 101)])].
+Definition ahead_acts : list act := [XStop; XStopped; XClear; XReadOff true; XBatchOff 6; XDone; CStart true 6].
+
+Lemma ahead_log_shape : log_mono ahead_log /\ offs_sorted ahead_log /\
+  (forall k, log_max_below k ahead_log 5 <= num [(0, 102)] k) /\ (ahead_log <> [] -> 5 <= last_off ahead_log + 1).
+Proof.
+  split; [|split; [|split]].
+  - apply (mono_snoc [] (5, [(0, 101)])); [constructor|]. intros k v _. cbn. lia.
+  - cbn. split; [intros e' []|exact I].
+  - intros k. rewrite log_max_below_none; [lia|]. intros e [<-|[]]. cbn. lia.
+  - intros _. vm_compute. discriminate.
+Qed.
+
+Lemma stored_number_ahead_of_log_returned_again :
+  exists s s', run (mkCfg 100 500) (fresh [(0, 102)] 5 ahead_log) ahead_acts = Some s /\
+               step (mkCfg 100 500) s (CNext 0 102) = Some s' /\ 102 <= num (p_nums s) 0.
+Proof. eexists. eexists. split; [vm_compute; reflexivity|]. split; [vm_compute; reflexivity|]. vm_compute. discriminate. Qed.
